@@ -799,7 +799,7 @@ def bottom_up_family(maxdepth):
 
 
 def e2_bfs(depth, cap):
-    seen = {r_canon(RNode("root", "map", 1)): ()}
+    seen = {(r_canon(RNode("root", "map", 1)), None): ()}
     frontier = collections.deque([()])
     trans = 0
     viols = []
@@ -813,13 +813,21 @@ def e2_bfs(depth, cap):
         _, rroot, _ = replay_tree(h)
         for op in ops_for(rroot):
             trans += 1
-            _, r2, bad = replay_tree(h + (op,))
+            m2, r2, bad = replay_tree(h + (op,))
             if bad:
                 viols.append((h + (op,), bad[0]))
                 if len(viols) > 100:
                     return seen, trans, viols, capped, maxd
                 continue
-            c = r_canon(r2)
+            # reference tree + everything the real objects remember (memos
+            # and caches are hidden state: merge only when they agree too)
+            try:
+                fp = common.fingerprint(
+                    [m2.input_parameters]
+                    + [x.obj for x in r2.removed[-2:]])
+            except Exception:  # noqa
+                fp = None
+            c = (r_canon(r2), fp)
             if c not in seen:
                 if len(seen) >= cap:
                     capped = True
